@@ -426,3 +426,46 @@ Lemma ws_insert_example :
   all_ws t /\ starts_non_ws post /\ advance P t = mkpos 4 9 45 /\
   map (fun x => (line (tstart x), col (tstart x))) (lex_loop 4 P (t ++ post)) = [(4, 9); (4, 10); (4, 11)].
 Proof. vm_compute. repeat split; try reflexivity; repeat constructor. Qed.
+
+(* ------------------------------------------------------------------ 5. side conditions of the full statement, refutations in final form *)
+Definition is_gap (s : list Z) (g : nat) : bool :=
+  forallb (fun x => negb ((idx (tstart x) <? Z.of_nat g) && (Z.of_nat g <? idx (tend x)))) (lex s).
+(* in the reformatted text no significant token overlaps the inserted bytes, and a comment token that overlaps them
+   lies inside them: the inserted text is trivia IN THE RESULT *)
+Definition inserted_is_trivia (s : list Z) (g : nat) (t : list Z) : bool :=
+  let lo := Z.of_nat g in let hi := Z.of_nat (g + length t) in
+  forallb (fun x => let a := idx (tstart x) in let b := idx (tend x) in
+                    negb ((a <? hi) && (lo <? b)) || (is_comment x && (lo <=? a) && (b <=? hi)))
+          (lex (insert_at s g t)).
+
+Lemma slash_fuse_refuted : exists s g t,
+  is_gap s g = true /\ lex_bad s = [] /\ inserted_is_trivia s g t = false /\
+  map traw (significant (lex (insert_at s g t))) <> map traw (significant (lex s)).
+Proof.
+  exists f_src, 3%nat, f_cmt. vm_compute. repeat split; try reflexivity. discriminate.
+Qed.
+
+Lemma lone_quote_refuted : exists s g t,
+  is_gap s g = true /\ lex_bad s <> [] /\
+  map traw (significant (lex (insert_at s g t))) <> map traw (significant (lex s)).
+Proof.
+  exists l_src, 6%nat, l_cmt. vm_compute. repeat split; try reflexivity; discriminate.
+Qed.
+
+Lemma column_follows_text_refuted : exists s g t,
+  t = [32] /\ is_gap s g = true /\
+  map (fun x => (tcls x, line (tstart x), col (tstart x))) (lex (insert_at s g t)) =
+  map (fun x => (tcls x, line (tstart x), col (tstart x))) (lex s).
+Proof.
+  exists q_src, 2%nat, [32]. vm_compute. repeat split; reflexivity.
+Qed.
+
+Lemma doc_inert_refuted :
+  (exists s t, doc_flags s [0] = [false] /\ doc_flags (insert_at s 0 t) [Z.of_nat (length t)] = [true] /\
+               map traw (significant (lex (insert_at s 0 t))) = map traw (significant (lex s))) /\
+  (exists s g, doc_flags s [Z.of_nat g] = [true] /\ doc_flags (insert_at s g [10]) [Z.of_nat g + 1] = [false]).
+Proof.
+  split.
+  - exists d_src, d_cmt. vm_compute. repeat split; reflexivity.
+  - exists (d_cmt ++ d_src), 11%nat. vm_compute. split; reflexivity.
+Qed.
